@@ -192,6 +192,37 @@ def check(ctx, locked=True):
     recover_journal()
     if not os.path.exists(os.path.join(LEAN, "RdsProps", "Refinement.lean")):
         return {"status": "absent", "broken": []}
+    # a BROKEN result is remembered per (translated source, proof sources): the twenty checks of one tree need not repeat
+    # the failing build and the localisation pass twenty times. A result "ok" is never taken from the cache.
+    import hashlib, json
+    h = hashlib.sha256()
+    for f in [os.path.join(LEAN, "RdsC", "Translated.lean"), os.path.join(LEAN, "RdsC", "Prelude.lean"), os.path.join(LEAN, "RdsModel", "Generated.lean"),
+              os.path.join(LEAN, "RdsProps", "Refinement.lean")] + sorted(
+              os.path.join(LEAN, d, x) for d in ("RdsProofs", "RdsModel", "RdsSpec") for x in os.listdir(os.path.join(LEAN, d)) if x.endswith(".lean")):
+        try: h.update(open(f, "rb").read())
+        except OSError: h.update(b"?")
+    h.update(open(__file__, "rb").read())
+    cache = os.path.join(infra.WORK, "refine-cache", h.hexdigest()[:24] + ".json")
+    if os.path.exists(cache) and os.environ.get("VERIF_NO_REFINE_CACHE") != "1":
+        try:
+            res = json.load(open(cache))
+            if res.get("status") in ("broken", "untranslatable") and res.get("broken"):
+                res["cached"] = True
+                return res
+        except (OSError, ValueError):
+            pass
+    res = _check(ctx, locked)
+    if res.get("status") in ("broken", "untranslatable") and res.get("broken"):
+        try:
+            os.makedirs(os.path.dirname(cache), exist_ok=True)
+            json.dump(res, open(cache, "w"))
+        except OSError:
+            pass
+    return res
+
+def _check(ctx, locked=True):
+    if False:
+        return None
     extra = untranslated_beyond_design()
     pre_broken = []
     if extra:
